@@ -660,6 +660,10 @@ class LMDBStorage(BaseStorage):
             raise AuthenticationError("restricted: permission denied")
 
         if not event.is_ephemeral:
+            with self.db.begin(buffers=True) as txn:
+                if get_event_data(txn, event.id_bytes):
+                    # already stored: nothing changes, nobody is notified again
+                    return event, False
             self.writer_queue.put(("add", [event]))
         await self.post_save(event)
         return event, True
